@@ -15,6 +15,7 @@ CONSTANTS
   DEV_WalkRawName = FALSE
   DEV_LinkRawName = FALSE
   DEV_LinkOneSlash = FALSE
+  Unpriv <- MCFalse
 VIEW View
 INVARIANT TypeOK
 CHECK_DEADLOCK FALSE
